@@ -563,6 +563,15 @@ class Prog:
             self._callers = d
         return self._callers
 
+    def absorbed(self, key):
+        """a helper unknown to the reference tree whose every call has been inlined (inline.py): its code lives in its callers, the
+        stand-alone body is dead for the analyses"""
+        known = getattr(self, 'known_functions', None)
+        base = re.sub(r'(::\{closure#\d+\})+$', '', key)
+        if known is None or base in known:
+            return False
+        return base in getattr(self, 'inlined_into', {}) and not [c for c in self.callers.get(base, []) if not self.absorbed(self.key_of(c.body))]
+
     def caller_fns(self, fn, _seen=None):
         """keys of the functions that call `fn`, for who-may-call rules: a helper that the reference tree does not have (and that is
         inlined into its callers, see inline.py) is replaced by the functions calling it - extracting lines into a private helper
